@@ -168,6 +168,35 @@ class _Ret(Exception):
         self.v = v
 
 
+HELPERS = {}          # qualified name -> Fn of unit-local helpers that the evaluator may enter (set by the rule that uses it)
+
+
+def _top_compound(g):
+    par = g.parent_map()
+    tops = [i for i, x in g.ex.items() if x["k"] == "s:CompoundStmt" and i not in par]
+    return tops[0] if tops else min(i for i, x in g.ex.items() if x["k"] == "s:CompoundStmt")
+
+
+def _call_helper(fn, node, fold_arg, leaf_base, hooks, depth=0):
+    """value of a call of a unit-local helper: the callee's (loop-free) body is evaluated with the foldable arguments bound to its
+    parameters; arguments that are objects stay opaque - the leaf answers method calls on them by method name"""
+    g = HELPERS.get(node.get("callee"))
+    if g is None or g is fn or depth > 3:
+        raise Unknown()
+    env2 = {}
+    for pi, a in enumerate(node.get("args", [])):
+        if pi < len(g.params):
+            try:
+                env2[g.params[pi]["did"]] = fold_arg(a)
+            except Unknown:
+                pass
+    try:
+        _eval_stmt(g, _top_compound(g), env2, leaf_base, hooks)
+    except _Ret as r:
+        return r.v
+    raise Unknown()
+
+
 def _eval_stmt(fn, stmt, env, leaf_base, hooks=None):
     """evaluates a loop-free statement over an environment of locals (did -> value): compound statements, if statements, declarations,
     assignments to locals and `return <expr>` (raises _Ret); expressions are folded with lib/exprfold.py"""
@@ -180,6 +209,8 @@ def _eval_stmt(fn, stmt, env, leaf_base, hooks=None):
             return env[node["did"]]
         if node["k"] == "call" and node.get("cn") == "__builtin_expect" and node.get("args"):
             return fold(node["args"][0])           # ASMJIT_LIKELY / ASMJIT_UNLIKELY
+        if node["k"] == "call" and node.get("callee") in HELPERS:
+            return _call_helper(fn, node, fold, leaf_base, hooks)
         return leaf_base(text, node)
 
     def fold(e):
